@@ -185,6 +185,9 @@ func mixVec(w int) BitVec {
 
 // Bits computes the bit vector of an integer value.
 func (a *BitAnalyzer) Bits(v ssa.Value) BitVec {
+	if a.P.Bind != nil {
+		v = a.P.Deref(v)
+	}
 	if r, ok := a.memo[v]; ok {
 		return r
 	}
@@ -283,7 +286,7 @@ func (a *BitAnalyzer) bits(v ssa.Value, w int) BitVec {
 			if l == nil {
 				return mixVec(w)
 			}
-			n, ok := ConstInt(x.Y)
+			n, ok := a.P.Const(x.Y)
 			if !ok {
 				return mixVec(w)
 			}
@@ -342,6 +345,23 @@ func (a *BitAnalyzer) bits(v ssa.Value, w int) BitVec {
 	case *ssa.Call:
 		if r := a.inlineCall(x, w); r != nil {
 			return r
+		}
+		// a pure integer helper applied to constants is the constant it folds to
+		if callee := x.Call.StaticCallee(); callee != nil && len(x.Call.Args) > 0 {
+			var ks []int64
+			for _, arg := range x.Call.Args {
+				k, ok := a.P.Const(arg)
+				if !ok {
+					ks = nil
+					break
+				}
+				ks = append(ks, k)
+			}
+			if ks != nil {
+				if k, ok := FoldCall(callee, ks); ok {
+					return constBits(uint64(k), w)
+				}
+			}
 		}
 		return a.opaque(v)
 	}
